@@ -153,7 +153,7 @@ Definition zswitch (n : net) (s : switch) : bool :=
   s_closed s && swet_eqb (s_et s) ETb && s_zpos s && bus_is n (s_bus s) && bus_is n (s_el s).
 
 (* all branches with BR_STATUS = 1, as (from row, to row) *)
-Definition ppc_edges (rp : nat -> nat) (n : net) : list (node * node) :=
+Definition ppc_edges_old (rp : nat -> nat) (n : net) : list (node * node) :=
   flat_map (fun jl => if r_is (snd jl) then [line_ends rp n (fst jl) (snd jl)] else []) (enum (lines n))
   ++ flat_map (fun jt => if r_is (snd jt) then [trafo_ends rp n (fst jt) (snd jt)] else []) (enum (trafos n))
   ++ flat_map (fun jt => if t_is (snd jt) then [t3_ends rp n (fst jt) (snd jt) 0; t3_ends rp n (fst jt) (snd jt) 1;
@@ -162,6 +162,14 @@ Definition ppc_edges (rp : nat -> nat) (n : net) : list (node * node) :=
   ++ flat_map (fun jx => if x_is (snd jx) && bus_is n (x_bus (snd jx))
                          then [(L (NB (rp (x_bus (snd jx)))), L (NXW (fst jx)))] else []) (enum (xwards n))
   ++ flat_map (fun s => if zswitch n s then [(L (NB (rp (s_bus s))), L (NB (rp (s_el s))))] else []) (switches n).
+
+(* rows of type NONE when _check_connectivity runs: the rows of out-of-service buses (auxiliary rows of out-of-service
+   xwards / trafo3ws are NONE too, but no status-1 branch ends there; switch / oos auxiliary rows are PQ) *)
+Definition none_row (n : net) (x : node) : bool := match x with L (NB r) => bus_oos n r | _ => false end.
+(* auxiliary.py _check_connectivity after "fix: the connectivity check does not walk through out-of-service buses":
+   br_status &= ~(bus_oos[F_BUS] | bus_oos[T_BUS]).  ppc_edges_old is the search graph before that repair. *)
+Definition ppc_edges (rp : nat -> nat) (n : net) : list (node * node) :=
+  filter (fun e => negb (none_row n (fst e)) && negb (none_row n (snd e))) (ppc_edges_old rp n).
 
 (* REF rows: set_reference_buses build_bus.py:563 *)
 Definition ref_nodes (rp : nat -> nat) (n : net) : list node :=
@@ -178,6 +186,9 @@ Definition isolated (n : net) (x : node) : bool := isolated_in (reached n) x.
 Definition nan_with (rp : nat -> nat) (R : list node) (n : net) (b : nat) : bool :=
   negb (bus_is n b) || isolated_in R (L (NB (rp b))).
 Definition nan_bus (n : net) (b : nat) : bool := let rp := rep n in nan_with rp (reached_with rp n) n b.
+(* the behaviour before the repair, kept so that its return is recognised (C07_pf_isolated_iff_supplied_old_refuted) *)
+Definition nan_bus_old (n : net) (b : nat) : bool :=
+  let rp := rep n in nan_with rp (reach node_eq_dec (sym (ppc_edges_old rp n)) (ref_nodes rp n)) n b.
 
 (* ---- all ppc rows in row order, so that row number = position (used for net._isolated_buses) *)
 Definition sw_nodes (rp : nat -> nat) (n : net) (et : swet) : list node :=
@@ -263,27 +274,26 @@ Definition topo_unsupplied (n : net) : list nat :=
            (components Nat.eq_dec (nx_edges n) (nx_nodes n)).
 
 (* ------------------------------------------------------------------ guard of the partial theorem *)
-(* G07: no in-service dcline, and no in-service trafo / trafo3w / impedance with a terminal at an
-   out-of-service bus (such a branch keeps BR_STATUS = 1 and _check_connectivity walks through the NONE row);
-   in-service lines and closed bus-bus switches end at buses of the bus table *)
+(* G07: no in-service dcline (create_nxgraph makes it an edge, the power flow does not treat it as a path to a slack);
+   in-service branches and closed bus-bus switches end at buses of the bus table *)
 Definition G07 (n : net) : bool :=
   forallb (fun d => negb (r_is d)) (dclines n)
-  && forallb (fun t => negb (r_is t) || (bus_is n (r_f t) && bus_is n (r_t t))) (trafos n)
-  && forallb (fun t => negb (r_is t) || (bus_is n (r_f t) && bus_is n (r_t t))) (imps n)
-  && forallb (fun t => negb (t_is t) || (bus_is n (t_hv t) && bus_is n (t_mv t) && bus_is n (t_lv t))) (trafo3ws n)
+  && forallb (fun t => negb (r_is t) || (bus_known n (r_f t) && bus_known n (r_t t))) (trafos n)
+  && forallb (fun t => negb (r_is t) || (bus_known n (r_f t) && bus_known n (r_t t))) (imps n)
+  && forallb (fun t => negb (t_is t) || (bus_known n (t_hv t) && bus_known n (t_mv t) && bus_known n (t_lv t))) (trafo3ws n)
   && forallb (fun l => negb (r_is l) || (bus_known n (r_f l) && bus_known n (r_t l))) (lines n)
   && forallb (fun s => negb (swet_eqb (s_et s) ETb && s_closed s) || (bus_known n (s_bus s) && bus_known n (s_el s))) (switches n).
 
 (* ------------------------------------------------------------------ reported power of ext_grids *)
-(* results_gen.py:24-31 and :142-171 (_get_gen_results / _get_ext_grid_results): the NaN-initialised res_ext_grid
-   is only filled when at least one ext_grid row has in_service = True (eg_end = sum(ext_grid.in_service));
-   then p[eg_is_mask] = PG and the other rows stay 0.  e = (in_service flag, in _is_elements, PG of its gen row) *)
+(* results_gen.py _get_gen_results / _get_ext_grid_results after "fix: res_ext_grid is written also when no ext_grid is
+   in service": p = zeros; p[eg_is_mask] = PG.  e = (in_service flag, in _is_elements, PG of its gen row) *)
 Definition res_ext_grid_p (egs : list (bool * bool * Q)%type) : list (option Q) :=
+  map (fun e : (bool * bool * Q)%type => if snd (fst e) then Some (snd e) else Some 0%Q) egs.
+(* before the repair: the NaN-initialised table was only filled when some ext_grid row had in_service = True *)
+Definition res_ext_grid_p_old (egs : list (bool * bool * Q)%type) : list (option Q) :=
   if existsb (fun e : (bool * bool * Q)%type => fst (fst e)) egs
   then map (fun e : (bool * bool * Q)%type => if snd (fst e) then Some (snd e) else Some 0%Q) egs
   else map (fun _ => None) egs.
-(* guard of the zero-power statement for ext_grids *)
-Definition G07eg (egs : list (bool * bool * Q)%type) : bool := existsb (fun e : (bool * bool * Q)%type => fst (fst e)) egs.
 Definition run_c07_eg (egs : list (bool * bool * Q)%type) : out := olist ooq (res_ext_grid_p egs).
 
 (* ------------------------------------------------------------------ Run wrappers *)
